@@ -1072,6 +1072,8 @@ class Step:
                 # same class, same total size, no references: the library byte-copies the value, which
                 # replaces the nested object wholesale (its shapes, capacities and split come along)
                 replace_whole = not (_shape_compatible(w.schema, t, node, vnode) and _same_caps(w.schema, t, node, vnode))
+                if replace_whole and self._inner_referenced(t, node):
+                    raise Skip()  # references into the replaced part would be left pointing at reshuffled bytes
             elif not _shape_compatible(w.schema, t, node, vnode):
                 raise Skip()  # would be updated field by field, which may legitimately refuse it
             if typegen.has_refs(w.schema, t):
@@ -1096,7 +1098,11 @@ class Step:
             self.viol("C10", "fitting_assignment_raised", ["set", exc_sig(e), typegen.features(w.schema, t), _form(op["value"])], f"{type(e).__name__}: {e}; path {path}; value {str(op['value'])[:200]}")
             return
         if replace_whole:
-            M.store_at(parent, key, vnode)
+            # (in place: references to the part itself go on denoting it, with its new content)
+            if isinstance(node, M.StructNode) and isinstance(vnode, M.StructNode):
+                node.f = vnode.f
+            else:
+                M.store_at(parent, key, vnode)
             if self.pre_layout is not None:
                 self.pre_layout.pop(o.k, None)
             self.res.probe("nested_assignment_same_size_other_split")
@@ -1105,6 +1111,33 @@ class Step:
         self.res.probe("set_via_" + str(op.get("via")))
         if "*" in path:
             self.res.probe("write_through_reference")
+
+    def _inner_referenced(self, t, node, itself=False):
+        """Is anything strictly inside `node` (or, with itself=True, `node` too) the target of a live reference?"""
+        w = self.w
+        inside = {id(node)} if itself else set()
+
+        def collect(t, nd, top):
+            if nd is None:
+                return
+            if not top and isinstance(nd, (M.StructNode, M.ArrayNode)):
+                inside.add(id(nd))
+            ty = w.schema[t]
+            if ty["k"] == "struct":
+                for f in ty["fields"]:
+                    collect(f[1], nd.f[f[0]], False)
+            elif ty["k"] == "array" and w.schema[ty["item"]]["k"] in ("struct", "array"):
+                for x in nd.items:
+                    collect(ty["item"], x, False)
+
+        collect(t, node, True)
+        if not inside:
+            return False
+        for x in w.live_objs():
+            for p, tt, n in M.enum_paths(w.schema, x.t, x.node, maxn=400):
+                if isinstance(n, (M.RefLeaf, M.URefLeaf)) and n.to is not None and id(n.to) in inside:
+                    return True
+        return False
 
     def _part_extent(self, o, path):
         try:
@@ -1401,7 +1434,9 @@ class Step:
                     try:
                         gotv = read_handle(w, o.t, o.view())
                         if M.same(M.snapshot(w.schema, o.t, o.node), gotv):
-                            self.viol("C06", "kept_handle_stale_view_agrees_with_model", [kind, "written_through_" + str(self.op.get("via", "-")), typegen.features(w.schema, o.t)], f"object {o.k}: reading the kept handle raised {type(e).__name__}: {e} (model == rebuilt view); after {str(self.op)[:300]}")
+                            # (a dressed object whose attributes stop reflecting its buffer during a
+                            # hybrid operation is C18's own subject)
+                            self.viol("C18" if kind.startswith("h_") and getattr(o, "dressed", None) is not None else "C06", "kept_handle_stale_view_agrees_with_model", [kind, "written_through_" + str(self.op.get("via", "-")), typegen.features(w.schema, o.t)], f"object {o.k}: reading the kept handle raised {type(e).__name__}: {e} (model == rebuilt view); after {str(self.op)[:300]}")
                             continue
                     except Exception:
                         pass
